@@ -12,6 +12,9 @@ from ..core import same, HarnessError
 ID = 'C01'
 TITLE = 'dictable = rectangular list of records under any history'
 LEVEL = 'exploration'
+TECHNIQUE = 'runtime monitoring: reference-model monitor over random operation histories on a pool of live tables + icontract class invariant on every dictable touched'
+LEVEL_TEXT = 'Held on the histories explored (thousands of 25-40 step histories over 35 op kinds with aliasing between pool tables); says nothing about op kinds or cell types the generator does not produce. A check says held on K observed executions, never verified.'
+LEVEL_NOTE = 'Trusted: the list-of-records model and same() in vlib/, icontract, CPython. Column order and in-place edits of a column list are outside the claim.'
 RULE = ('random operation histories (constructors, setitem/del, row/slice/mask/int-list/projection/tuple access, derived columns, '
         'relabel, do, concat/+, drop) over a pool of <=4 live tables, model-driven generation; a history is non-trivial when it has '
         '>=2 distinct op kinds applied to a table that was itself an op result and touches >=1 empty or column-only table; '
